@@ -1,5 +1,5 @@
 (* C20 - text and encoding helpers. Statements only. *)
-From Plush Require Import model.Bytes model.Text proofs.TextProofs proofs.EscapeProofs proofs.Utf8Proofs.
+From Plush Require Import model.Bytes model.Text proofs.TextProofs proofs.EscapeProofs proofs.Utf8Proofs proofs.JsonProofs.
 
 (* truncate returns s unchanged (byte-identical, any bytes) when it has at
    most size characters *)
@@ -76,3 +76,24 @@ Print Assumptions C20_truncate_short.
 Print Assumptions C20_truncate_shape.
 Print Assumptions C20_html_escape_clean.
 Print Assumptions C20_html_escape_id.
+
+(* toJSON emits a JSON text, for every value: a recogniser of the JSON grammar
+   (proofs/JsonProofs.v: strings with the standard escapes and no raw control
+   characters, numbers without leading zeros, null / true / false, arrays and
+   objects nested to any depth, nothing before or after) accepts the whole
+   output.  That the text decodes back to the value is decided by the
+   encoding/json oracle of the harness, not proved. *)
+Theorem C20_to_json_is_json : forall v, is_json (to_json v).
+Proof. exact to_json_is_json. Qed.
+Print Assumptions C20_to_json_is_json.
+
+(* ... and, piece by piece: a string body followed by its closing quote is
+   scanned exactly, whatever bytes the string holds *)
+Theorem C20_json_string_scanned : forall s rest, scan_str (json_str_aux s 0 true ++ 34%N :: rest) = Some rest.
+Proof. exact scan_json_string. Qed.
+
+(* the recogniser is not vacuous *)
+Example C20_recogniser_rejects :
+  skip_val 9 [34; 10; 34]%N = None /\ skip_val 9 [48; 49]%N = None /\ skip_val 9 [91; 49; 44; 93]%N = None /\
+  skip_val 9 [123; 97; 58; 49; 125]%N = None.
+Proof. repeat split; reflexivity. Qed.
